@@ -27,6 +27,8 @@ type Program struct {
 	errType  types.Type
 	schemas  map[string]*Schema
 	mu       sync.Mutex
+	regOnce  sync.Once
+	reg      map[int64][]*ssa.Function
 }
 
 func (p *Program) isRepoPkg(path string) bool { return strings.HasPrefix(path, repoMod) }
